@@ -19,16 +19,15 @@ Hypotheses that appear and why:
 * `wf p`: what `add_subcommands`/`add_subcommand` guarantee (a subcommand is not called like the subcommand key, names are
   distinct) and no subcommand is called "".
 * `mode ≠ .none`: the final parse merges the sub-parser's defaults or environment (`defaults=True`, the default).
-* `clean lay mode p cfg`: FORCED by the code.  At every level the value under the subcommand key is null or truthy, and
-  what is stored under a subcommand name is a namespace or null.  Without it the full statement is false:
-  `C17_falsy_name_counterexample` (a config that says `cmd: ""` for an optional subcommand is accepted, the empty name
-  is stored as the choice and the sections of ALL subcommands survive).
 
-FULL STATEMENT (what the property asks), for the record:
-  `finalParse lay single mode p cfg = .ok r → exactlyOne p r = true`   for all `p`, `cfg`.
-It is proved below under `wf`, `mode ≠ .none` and `clean` (`C17_exactly_one_partial`).
+FULL STATEMENT (what the property asks): `finalParse lay single mode p cfg = .ok r → exactlyOne p r = true` for all `p`, `cfg`.
+Since the fixes 96e4fb9 (a value under the subcommand key that is not a subcommand name is an error, the empty name
+included) and adfb1a7 (a non-mapping under the selected subcommand's name is an error) it HOLDS for the code and is proved
+below without any hypothesis on the configuration (`C17_exactly_one`; before the fixes it needed the hypothesis `clean`,
+refuted without it by a config saying `cmd: ""`: that input is now the regression witness `C17_falsy_name_rejected`).
+`clean` survives only in `C17_required`, where it says which error comes first.
 
-Beyond the final stage the property also fails for the code where a source is loaded on its own before it is merged
+Beyond the final stage the property still fails for the code where a source is loaded on its own before it is merged
 (`loadCfgArg`, `applyDefaultCfg`): `get_subcommands` runs on that source alone and deletes sections that a later source
 selects (`C17_early_selection_counterexample`, open finding C17-early-selection-drops-settings); what is proved is that a
 source keeps its sections when it is `quiet` (`C17_source_keeps_sections_partial`).
@@ -40,22 +39,22 @@ open Jap.Subcmd
 
 /-- on success, at every level of the selected path: `result[dest]` is a subcommand name, `result[name]` is a section,
     no other subcommand has a section; where nothing is selected there is no section -/
-theorem C17_exactly_one_partial (lay : Mode → P → Cfg) (single : Bool) (mode : Mode) (p : P) (cfg r : Cfg)
-    (hwf : wf p = true) (hm : mode ≠ .none) (hcl : clean lay mode p cfg = true)
+theorem C17_exactly_one (lay : Mode → P → Cfg) (single : Bool) (mode : Mode) (p : P) (cfg r : Cfg)
+    (hwf : wf p = true) (hm : mode ≠ .none)
     (hok : finalParse lay single mode p cfg = .ok r) :
     exactlyOne p r = true := by
   obtain ⟨c1, h1, h2⟩ := parseCommon_ok lay ⟨true, single, mode⟩ true p cfg r hok
-  exact (sound_P p lay ⟨true, single, mode⟩ [] cfg c1 r hwf rfl hm hcl h1 h2).1
+  exact (sound_P p lay single mode [] cfg c1 r hwf hm h1 h2).1
 
 /-- one level spelled out: the key, the section, and no section of any other subcommand -/
 theorem C17_exactly_one_top (lay : Mode → P → Cfg) (single : Bool) (mode : Mode) (i : Info) (h : SubHdr)
     (choices : List (String × P)) (cfg r : Cfg)
-    (hwf : wf (.node i (some h) choices) = true) (hm : mode ≠ .none) (hcl : clean lay mode (.node i (some h) choices) cfg = true)
+    (hwf : wf (.node i (some h) choices) = true) (hm : mode ≠ .none)
     (hok : finalParse lay single mode (.node i (some h) choices) cfg = .ok r) :
     (∃ n, lookup h.dest r = some (.str n) ∧ n ∈ names choices ∧ isSecAt n r = true ∧
         ∀ m ∈ names choices, m ≠ n → isSecAt m r = false) ∨
     (isNoneO (lookup h.dest r) = true ∧ ∀ m ∈ names choices, isSecAt m r = false) := by
-  have h1 := C17_exactly_one_partial lay single mode _ cfg r hwf hm hcl hok
+  have h1 := C17_exactly_one lay single mode _ cfg r hwf hm hok
   rw [exactlyOne] at h1
   cases hl : lookup h.dest r with
   | none =>
@@ -85,11 +84,11 @@ theorem C17_exactly_one_top (lay : Mode → P → Cfg) (single : Bool) (mode : M
     exactly what that parser was given, and the parser of the selected subcommand `n` was given `cfg[n]` over its layer
     (`merge given layer`: the given values win) -/
 theorem C17_complete_settings (lay : Mode → P → Cfg) (single : Bool) (mode : Mode) (p : P) (cfg r : Cfg)
-    (hwf : wf p = true) (hm : mode ≠ .none) (hcl : clean lay mode p cfg = true)
+    (hwf : wf p = true) (hm : mode ≠ .none)
     (hok : finalParse lay single mode p cfg = .ok r) :
     complete lay mode p cfg r := by
   obtain ⟨c1, h1, h2⟩ := parseCommon_ok lay ⟨true, single, mode⟩ true p cfg r hok
-  exact (sound_P p lay ⟨true, single, mode⟩ [] cfg c1 r hwf rfl hm hcl h1 h2).2.1
+  exact (sound_P p lay single mode [] cfg c1 r hwf hm h1 h2).2.1
 
 /-- the layer of a sub-parser, for its own options: its environment over its defaults (`parse_env`), resp. its defaults -/
 theorem C17_layer_own_settings (fuel : Nat) (single : Bool) (mode : Mode) (q : P) (k : String) (hk : ownKey q k) :
@@ -101,7 +100,6 @@ theorem C17_layer_own_settings (fuel : Nat) (single : Bool) (mode : Mode) (q : P
 theorem C17_settings_value (fuel : Nat) (single : Bool) (i : Info) (h : SubHdr) (choices : List (String × P))
     (cfg r : Cfg) (n : String) (q : P) (k : String)
     (hwf : wf (.node i (some h) choices) = true)
-    (hcl : clean (layFuel fuel single) .env (.node i (some h) choices) cfg = true)
     (hok : finalParse (layFuel fuel single) single .env (.node i (some h) choices) cfg = .ok r)
     (hsel : lookup h.dest r = some (.str n)) (hq : findP n choices = some q) (hk : ownKey q k)
     (hg : (keysOf (secOf (lookup n cfg))).Nodup ∧ leafAt k (secOf (lookup n cfg)) = true)
@@ -113,7 +111,7 @@ theorem C17_settings_value (fuel : Nat) (single : Bool) (i : Info) (h : SubHdr) 
         match lookup k q.info.envc with
         | some v => some v
         | .none => lookup k q.info.dflt := by
-  have hc := C17_complete_settings (layFuel fuel single) single .env _ cfg r hwf (by decide) hcl hok
+  have hc := C17_complete_settings (layFuel fuel single) single .env _ cfg r hwf (by decide) hok
   rw [complete] at hc
   have hc2 := hc.2
   simp only [hsel] at hc2
@@ -131,11 +129,11 @@ theorem C17_settings_value (fuel : Nat) (single : Bool) (i : Info) (h : SubHdr) 
     configuration that level was given: the name stored under the key (command line, config, environment), else the
     first subcommand in declaration order that has a section; null/absent when there is neither -/
 theorem C17_choice (lay : Mode → P → Cfg) (single : Bool) (mode : Mode) (p : P) (cfg r : Cfg)
-    (hwf : wf p = true) (hm : mode ≠ .none) (hcl : clean lay mode p cfg = true)
+    (hwf : wf p = true) (hm : mode ≠ .none)
     (hok : finalParse lay single mode p cfg = .ok r) :
     choiceOK lay mode p cfg r := by
   obtain ⟨c1, h1, h2⟩ := parseCommon_ok lay ⟨true, single, mode⟩ true p cfg r hok
-  exact (sound_P p lay ⟨true, single, mode⟩ [] cfg c1 r hwf rfl hm hcl h1 h2).2.2
+  exact (sound_P p lay single mode [] cfg c1 r hwf hm h1 h2).2.2
 
 /-- "first for which settings were given": without a name under the key, the selected subcommand has a section and
     no subcommand declared BEFORE it has one -/
@@ -265,14 +263,27 @@ example : finalParse (layFuel 8 true) true .dflt
 
 def twoP : P := .node (.basic [] []) (some ⟨"cmd", false⟩) [("a", leafP [("x", .int 1)]), ("b", leafP [("y", .int 2)])]
 
-/-- FULL statement fails: `cmd: ""` for an optional subcommand is accepted, the empty name stays as the choice and the
-    sections of both subcommands survive (the code tests `if subcommand` where it means `is not None`) -/
-theorem C17_falsy_name_counterexample :
+/-- regression witness of fix 96e4fb9 (finding C17-falsy-subcommand-name, now fixed): `cmd: ""` for an optional subcommand
+    used to be accepted — the empty name stayed as the choice and the sections of BOTH subcommands survived, because the
+    code tests `if subcommand` where it means `is not None` — and is now the "expected cmd to be one of …, but got" error;
+    so is any other value that is not a subcommand name, required or not -/
+theorem C17_falsy_name_rejected :
     finalParse (layFuel 8 true) true .dflt twoP [("cmd", .str ""), ("a", .sec [("x", .int 5)]), ("b", .sec [("y", .int 6)])]
-      = .ok [("cmd", .str ""), ("a", .sec [("x", .int 5)]), ("b", .sec [("y", .int 6)])]
-    ∧ exactlyOne twoP [("cmd", .str ""), ("a", .sec [("x", .int 5)]), ("b", .sec [("y", .int 6)])] = false
-    ∧ clean (layFuel 8 true) .dflt twoP [("cmd", .str ""), ("a", .sec [("x", .int 5)]), ("b", .sec [("y", .int 6)])] = false := by
-  refine ⟨by rfl, by decide, by decide⟩
+      = .error (.badname ["cmd"])
+    ∧ finalParse (layFuel 8 true) true .dflt twoP [("cmd", .str "zap"), ("a", .sec [("x", .int 5)])] = .error (.badname ["cmd"]) := by
+  refine ⟨by rfl, by rfl⟩
+
+/-- the general statement behind it: with `fail_no_subcommand`, whatever the rule selects, if it is not a subcommand name the
+    call fails with that error -/
+theorem C17_unknown_name_rejected (h : SubHdr) (ns : List String) (single : Bool) (mode : Mode) (pre : List String) (cfg : Cfg)
+    (v : Val) (hc : choice h ns cfg = some v) (hv : validName ns v = false) :
+    getSub h ns ⟨true, single, mode⟩ pre cfg = .error (.badname (pre ++ [h.dest])) :=
+  getSub_fail_invalid h ns single mode pre cfg v hc hv
+
+/-- regression witness of fix adfb1a7: a non-mapping under the selected subcommand's name is the "expected the settings …
+    to be a mapping" error (it used to reach `.clone()`: AttributeError) -/
+theorem C17_non_mapping_settings_rejected :
+    finalParse (layFuel 8 true) true .dflt twoP [("cmd", .str "a"), ("a", .int 5)] = .error (.badsec ["a"]) := by rfl
 
 /-- `handle_subcommands` ALONE does not establish the property: with an explicit name and ONE other section the
     section survives the call (`len(subcommand_keys) > 1` is false) … -/
@@ -386,7 +397,6 @@ theorem C17_layer_order_defaults (E : Env) (fuel : Nat) (single : Bool) (ctx : C
 theorem C17_complete_settings_concrete (E : Env) (fuel : Nat) (single : Bool) (i : Info) (h : SubHdr)
     (choices : List (String × P)) (cfg r : Cfg) (n : String) (q : P) (k : String)
     (hwf : wf (.node i (some h) choices) = true)
-    (hcl : clean (layC E (fuel + 1) single (.node i (some h) choices)) .env (.node i (some h) choices) cfg = true)
     (hok : finalParse (layC E (fuel + 1) single (.node i (some h) choices)) single .env (.node i (some h) choices) cfg = .ok r)
     (hsel : lookup h.dest r = some (.str n)) (hq : findP n choices = some q)
     (hk : ownKey q k) (hko : k ∈ q.info.options) (hm : k ≠ "__default_config__")
@@ -404,7 +414,7 @@ theorem C17_complete_settings_concrete (E : Env) (fuel : Nat) (single : Bool) (i
         | .none => pickLast k q.info.dcfs
             (pickLast k (q.info.pdcfs.map (narrow (relKey (.node i (some h) choices) q))) (lookup k q.info.opts)) := by
   have hc := C17_complete_settings (layC E (fuel + 1) single (.node i (some h) choices)) single .env _ cfg r hwf
-    (by intro e; cases e) hcl hok
+    (by intro e; cases e) hok
   rw [complete] at hc
   have hc2 := hc.2
   simp only [hsel] at hc2
@@ -483,10 +493,11 @@ theorem tie_get_subcommands :
     Jap.Gen.SubcmdShape.returns = Shape.returns := ⟨rfl, rfl, rfl, rfl, rfl, rfl, rfl, rfl, rfl, rfl⟩
 
 /-- `handle_subcommands`: which layer is computed, `merge_config(given or Namespace(), layer)` (given values first:
-    `mergeLayer` is `merge given layer`), the recursion with the key prefix -/
+    `mergeLayer` is `merge given layer`), the recursion with the key prefix, the settings check before the merge (`checkSettings`) -/
 theorem tie_handle_subcommands :
     Jap.Gen.SubcmdShape.layerCalls = Shape.layerCalls ∧ Jap.Gen.SubcmdShape.mergeCall = Shape.mergeCall ∧
-    Jap.Gen.SubcmdShape.givenFirst = true ∧ Jap.Gen.SubcmdShape.recurseCall = Shape.recurseCall := ⟨rfl, rfl, rfl, rfl⟩
+    Jap.Gen.SubcmdShape.givenFirst = true ∧ Jap.Gen.SubcmdShape.recurseCall = Shape.recurseCall ∧
+    Jap.Gen.SubcmdShape.settingsCheck = Shape.settingsCheck := ⟨rfl, rfl, rfl, rfl, rfl⟩
 
 /-- the argv action, `add_subcommand`, the head of `apply_parsing_links` (`sweep`) -/
 theorem tie_argv_and_links :
